@@ -81,6 +81,7 @@ type Case struct {
 	FailIDs    []uint64 `json:",omitempty"` // cut: regions whose SaveRegion fails on the follower
 	FCached    []Region `json:",omitempty"` // chain: regions the follower cached while it was the leader itself (heartbeats, term FTerm)
 	FTerm      uint64   `json:",omitempty"`
+	SlowLoad   bool     `json:",omitempty"` // chain: the follower's local store answers range reads slowly (it is still loading when the leader is reachable)
 	FStored    []Region `json:",omitempty"` // chain: metas in the follower's own region storage before it starts
 	Msgs       []Msg    `json:",omitempty"`
 	FCache     []Region `json:",omitempty"`
@@ -570,6 +571,23 @@ func (p *pdStub) SyncRegions(stream pdpb.PD_SyncRegionsServer) error {
 var cleanup sync.WaitGroup
 
 // ---- stream cut: the connection drops after `cut` delivered batches, the leader's syncer restarts, the follower reconnects ----
+// slowRangeKV delays every LoadRange: a large / slow local region store
+type slowRangeKV struct {
+	kv.Base
+	delay time.Duration
+	mu    sync.Mutex
+	done  int
+}
+
+func (k *slowRangeKV) LoadRange(a, b string, limit int) ([]string, []string, error) {
+	time.Sleep(k.delay)
+	ks, vs, err := k.Base.LoadRange(a, b, limit)
+	k.mu.Lock()
+	k.done++
+	k.mu.Unlock()
+	return ks, vs, err
+}
+
 type failSaveKV struct {
 	kv.Base
 	fail map[string]bool
@@ -894,6 +912,11 @@ func runSync(R *res.Result, c Case) Case {
 			panic(err)
 		}
 	}
+	var slow *slowRangeKV
+	if c.SlowLoad {
+		slow = &slowRangeKV{Base: follower.srv.storage.Base, delay: 400 * time.Millisecond}
+		follower.srv.storage.Base = slow
+	}
 	stub := &pdStub{leader: leader.syncer}
 	gs := grpc.NewServer()
 	pdpb.RegisterPDServer(gs, stub)
@@ -957,6 +980,15 @@ func runSync(R *res.Result, c Case) Case {
 		})
 		wait("the follower to apply the broadcasts", caughtUp)
 		close(quit)
+	}
+	if slow != nil {
+		// the start-up load of the follower must have finished before its cache is compared
+		wait("the follower's local load to finish", func() bool {
+			slow.mu.Lock()
+			defer slow.mu.Unlock()
+			return slow.done >= 1
+		})
+		time.Sleep(60 * time.Millisecond)
 	}
 	// ---- observe ----
 	stub.mu.Lock()
@@ -1223,6 +1255,26 @@ func genChain(r *rng.R, k int) Case {
 	c.LP = u64p(uint64(1 + r.Intn(100000)))
 	if r.Pct(50) {
 		c.FP = u64p(0)
+	}
+	if k%4 == 2 {
+		// a restarted follower whose local region store is slow: the copies on disk have the epoch the leader holds (leader
+		// transfers and flow updates do not bump it), so whichever is applied last wins
+		c.SlowLoad, c.UseRS = true, false
+		for _, reg := range c.Regions {
+			if r.Pct(60) {
+				c.FStored = append(c.FStored, reg)
+			}
+		}
+		if r.Pct(50) {
+			c.Pending = genUpdates(r, c.Regions, 3)
+			for i := range c.Pending {
+				if c.Pending[i].Leader == nil {
+					p := c.Pending[i].Peers[0]
+					c.Pending[i].Leader = &p
+				}
+			}
+		}
+		return c
 	}
 	exLeader := k%2 == 1 // the follower was the leader before: its cache holds heartbeat-built regions with terms > 0
 	if exLeader {
